@@ -33,6 +33,14 @@ def plain_cases(chk):
     for k in range(0, len(ops_all), 30):
         out.append(("names%d" % k, b"\x00" + bytes([O["IF"]]) + bytes(ops_all[k:k + 30]) + bytes([O["ENDIF"], O["1"]]), [], []))
     out.append(("reserved", bytes([0x00, O["IF"], 0x50, O["ENDIF"], 0x00, O["NOTIF"], 0x51, O["ELSE"], 0x89, 0x8a, O["ENDIF"]]), [], []))
+    # a script of P2SH shape given directly, with the redeem script as the last stack argument (the listing gets a P2SH section from the stack);
+    # a redeem script that is itself a hash lock of P2SH shape (P2SH is one level deep: no second section)
+    import gen_limits
+    hl = bytes([O["HASH160"]]) + G.push(gen_limits.hash160(b"ab")) + bytes([O["EQUAL"]])
+    for nm, redeem, args in (("p2sh-direct", bytes([O["2"], O["ADD"], O["3"], O["EQUAL"]]), [b"\x01"]), ("p2sh-direct-hashlock", hl, [b"ab"]),
+                             ("p2sh-direct-noargs", b"\x51", []), ("p2sh-direct-wrong", b"\x51", [b"\x07"])):
+        spk = bytes([O["HASH160"]]) + G.push(gen_limits.hash160(redeem if nm != "p2sh-direct-wrong" else b"zz")) + bytes([O["EQUAL"]])
+        out.append((nm, spk, args + [redeem], [f for f in STANDARD if f != "CLEANSTACK"]))
     out.append(("pushforms", b"\x00" + G.push(b"\x01\x02") + G.push(b"", 1) + G.push(b"\x07" * 76) + b"\x4f\x60\x61" + G.push(b"\x09", 2) + bytes([O["2DROP"]]) * 3, [], []))
     for i in range(8 if chk.tier == "quick" else 60):
         g = G.LongGen(rng, risk=0.0)
@@ -92,7 +100,8 @@ def run(chk):
     # P2SH spends whose scriptSig has unusual shapes: empty redeem script (scriptSig ends in OP_0), OP_n as redeem "push", extra pushes, PUSHDATA forms
     import gen_limits
     for k, (redeem, sig_prefix, form) in enumerate([(b"", G.push(b"\x01\x02"), "op0"), (b"\x51", b"", "direct"), (b"\x51", G.push(b"\x07") + G.push(b""), "direct"),
-                                                    (b"\x52\x51\x87\x91\x51", b"\x51", "pd1"), (b"\x51" + bytes([G.OP["NOP"]]) * 80, b"", "pd1")]):
+                                                    (b"\x52\x51\x87\x91\x51", b"\x51", "pd1"),
+                                                    (bytes([G.OP["HASH160"]]) + G.push(gen_limits.hash160(b"ab")) + bytes([G.OP["EQUAL"]]), G.push(b"ab"), "direct"), (b"\x51" + bytes([G.OP["NOP"]]) * 80, b"", "pd1")]):
         spk = bytes([G.OP["HASH160"]]) + G.push(gen_limits.hash160(redeem)) + bytes([G.OP["EQUAL"]])
         c = gen_spend.SpendCase(rng, "p2pk", "valid", 1, 0, 0)
         c.funding.vout[0] = btc.TxOut(c.funding.vout[0].amount, spk)
